@@ -36,7 +36,7 @@ Proof. exact nonvacuous_check. Qed.
 
 (** The methods that do reach [do_collection] are exactly the six collection entry points. *)
 Example C03_collecting_methods :
-  collecting_methods fns = ["collect_debt"; "mark_debt"; "finish_marking"; "cycle_debt"; "finish_cycle"; "start_sweeping"].
+  same_set (collecting_methods fns) ["collect_debt"; "mark_debt"; "finish_marking"; "cycle_debt"; "finish_cycle"; "start_sweeping"] = true.
 Proof. exact collecting_methods_check. Qed.
 
 (** Discrimination: [sweep_one] *is* reachable from [do_collection] (the graph is not edgeless). *)
